@@ -43,6 +43,8 @@ def run(check: Check):
     c08.shuffled_stream(check, ci, 'R-STREAM.seeded')
   # ... and only if the stream's pass order is fixed (sorted ids, not hash order of a set)
   c08.sorted_ids_rule(check, 'R-STREAM.sorted')
+  # ... and only if reading a client in between does not disturb the pass (no cursor shared between queries)
+  c08._cursors(check, 'R-STREAM.cursor')
   ka = KeyAnalysis(repo)
   for ci in (get, shf):
     check_function(check, ka, ci.method('sample'), 'R-KEY', step_like=False)
